@@ -17,6 +17,8 @@ func (t *BTree) VerifCheck() error {
 		}
 		return nil
 	}
+	// the bounds come from the degree, not from maxItems()/minItems(): those are code under test
+	var maxIt, minIt = 2*t.degree - 1, t.degree - 1
 	var (
 		count     int
 		leafDepth = -1
@@ -27,11 +29,11 @@ func (t *BTree) VerifCheck() error {
 		if n == nil {
 			return fmt.Errorf("nil node at depth %d", depth)
 		}
-		if len(n.items) > t.maxItems() {
-			return fmt.Errorf("node at depth %d has %d items > max %d", depth, len(n.items), t.maxItems())
+		if len(n.items) > maxIt {
+			return fmt.Errorf("node at depth %d has %d items > max %d (degree %d)", depth, len(n.items), maxIt, t.degree)
 		}
-		if !isRoot && len(n.items) < t.minItems() {
-			return fmt.Errorf("non-root node at depth %d has %d items < min %d", depth, len(n.items), t.minItems())
+		if !isRoot && len(n.items) < minIt {
+			return fmt.Errorf("non-root node at depth %d has %d items < min %d (degree %d)", depth, len(n.items), minIt, t.degree)
 		}
 		if isRoot && len(n.items) == 0 && len(n.children) != 0 {
 			return fmt.Errorf("root without items has %d children", len(n.children))
@@ -94,3 +96,6 @@ func (t *BTree) VerifHeight() (height int, nodes int) {
 	walk(t.root, 0)
 	return height, nodes
 }
+
+// VerifDegree returns the degree the tree was built with (verification hook).
+func (t *BTree) VerifDegree() int { return t.degree }
